@@ -58,7 +58,7 @@ Definition repStop (hmc size : Z) : Z := Z.max 0 (size - hmc).
 
 (** [hmc] = pos.getHalfMoveClock(), [h] = pos.zobristHash() *)
 Definition canClaimDrawRep (hmc : Z) (h : N) (l : list N) (size firstNew : Z) : option bool :=
-  repLoop (S (Z.to_nat size)) l h firstNew (repStop hmc size) (size - 2) 0.
+  repLoop (S (Z.to_nat size)) l h firstNew (repStop hmc size) (size - 4) 0.
 
 (** * Search::canClaimDraw50 (search.hpp):  return (pos.getHalfMoveClock() >= 100); *)
 Definition canClaimDraw50 (hmc : Z) : bool := hmc >=? 100.
